@@ -237,11 +237,11 @@ func (w *c17World) advanceTo(height uint64, reent int) {
 }
 
 type c17Recv struct {
-	tag        int
-	height     uint64
-	accepted   bool   // my instance, not my own message, not below the current height at receipt
-	curAt      uint64 // current height at receipt
-	order      int
+	tag      int
+	height   uint64
+	accepted bool   // my instance, not my own message, not below the current height at receipt
+	curAt    uint64 // current height at receipt
+	order    int
 }
 
 func runC17(c c17Case) (*ev.Violation, bool) {
